@@ -48,6 +48,18 @@ def run(tier, rng, C):
         cases.append({'id': cid, 'line': line(C, cid, kind, lists),
                       'show': ('removable ' if kind == 'r' else 'unique ') + repr(lists),
                       'nontrivial': any(x.startswith('~') for l in lists for x in l) or kind == 'u'})
+    # long lists (16-30 entries) merged after shorter ones that leave negations remembered (and before later additions)
+    for _ in range(300 if tier == 'quick' else 6000):
+        pool = ['app%02d' % j for j in range(30)]
+        first = [rng.choice(['~' + rng.choice(pool), rng.choice(pool)]) for _ in range(rng.randint(1, 4))]
+        longl = rng.sample(pool, rng.randint(16, 30))
+        if rng.random() < 0.3:
+            longl.insert(rng.randint(0, len(longl)), '~' + rng.choice(pool))
+        last = [rng.choice(pool + ['~' + x for x in pool[:5]]) for _ in range(rng.randint(0, 3))]
+        lists = [first, longl, last] if rng.random() < 0.7 else [longl, first, longl[:17], last]
+        cid = C.case_id('l', n)
+        n += 1
+        cases.append({'id': cid, 'line': line(C, cid, 'r', lists), 'show': 'removable ' + repr(lists)[:300], 'nontrivial': True})
     # end to end: nodes over include graphs whose classes and node carry application lists with negations; the
     # node's list is the replay, in the order in which the classes were merged (read off the rendered `trace`
     # parameter), of the classes' own lists, the node's own list last
@@ -129,6 +141,6 @@ def run(tier, rng, C):
     rule = ('exhaustive: every sequence of length <= %d over {a,b,~a,~b} cut into <= 3 lists in every way, '
             'each list loaded with From<Vec<String>> and merged left to right (RemovableList through the hook); '
             'plus %d random cases over a richer alphabet (multi-byte, empty, double markers) incl. UniqueList; '
-            'plus nodes over random include graphs whose classes carry application lists with negations (oracle: replay in merge order); '
+            'plus long lists (16-30 entries) merged over remembered negations; plus nodes over random include graphs whose classes carry application lists with negations (oracle: replay in merge order); '
             'non-trivial = contains a negation (or exercises UniqueList)' % (maxlen, nrand))
     return C.standard_run(cases, rule, key_fn=lambda c, m, i, r: 'list-state-differs', exhaustive=True, extra_oracle=oracle)
